@@ -122,4 +122,73 @@ def cmpDown (signed incl : Bool) (b : BitVec 64) (i : BitVec 64) : Bool :=
 def trailingZeros64 (x : BitVec 64) : BitVec 64 :=
   BitVec.ofNat 64 (((List.range 64).find? fun i => x.getLsbD i).getD 64)
 
+/-- `copy(dst, src)`: the content of `dst` afterwards (the first `min (len dst) (len src)` elements are those of `src`) -/
+def copy {α : Type} (dst src : List α) : List α := src.take dst.length ++ dst.drop src.length
+
+/-- Array-pointer variables that a function swaps (`p, q = q, p`) are translated as pairs (tag, content): the tag says
+which of the caller's arrays the variable points to (the position of the parameter that pointed to it on entry), the
+content is that array's current content.  This is sound when the caller's arrays are pairwise distinct (the ASSUMPTION
+`!disjoint` under which such functions are translated) and the only assignments to these variables are swaps, so that
+at any time the variables point to distinct arrays.  `byTag ps k` is the content on return of the array that the `k`-th
+of these parameters pointed to on entry. -/
+def byTag {α : Type} (ps : List (Nat × List α)) (k : Nat) : List α :=
+  match ps.find? (fun p => p.1 == k) with
+  | some p => p.2
+  | none => []
+
+/-- the outcome of a call of a translated function that may panic, inside the caller: `none` (the callee panicked)
+is a panic of the caller -/
+def call {ρ α : Type} : Option α → Flow ρ α
+  | some a => .run a
+  | none => .panic
+
+/-- the bounds of `x[lo:hi]` (both `int`) are valid for a list of length `n`: `0 ≤ lo ≤ hi ≤ n` -/
+def sliceOK (lo hi : BitVec 64) (n : Nat) : Bool :=
+  !lo.msb && !hi.msb && decide (lo.toNat ≤ hi.toNat) && decide (hi.toNat ≤ n)
+
+/-- an `int8` index `i` is within `0 … n-1` -/
+def inRangeS8 (i : BitVec 8) (n : Nat) : Bool := !i.msb && decide (i.toNat < n)
+/-- a `byte` index `i` is within `0 … n-1` -/
+def inRangeU8 (i : BitVec 8) (n : Nat) : Bool := decide (i.toNat < n)
+
+/-! ### `for i := range s` over a string: the byte offsets at which Go's UTF-8 decoder starts a rune
+
+`runeWidth p` is the number of bytes `utf8.DecodeRuneInString` consumes at the start of the non-empty byte string `p`
+(package unicode/utf8, tables `first` and `acceptRanges`): 1 for an ASCII byte and for every byte that does not start
+a well-formed sequence (Go yields U+FFFD and advances by one byte), otherwise the length 2–4 of the sequence. -/
+
+/-- the second byte `b1` is acceptable after the first byte `b0` of a multi-byte sequence -/
+def utf8Second (b0 b1 : Nat) : Bool :=
+  let lo := if b0 == 0xE0 then 0xA0 else if b0 == 0xF0 then 0x90 else 0x80
+  let hi := if b0 == 0xED then 0x9F else if b0 == 0xF4 then 0x8F else 0xBF
+  decide (lo ≤ b1) && decide (b1 ≤ hi)
+
+/-- a continuation byte -/
+def utf8Cont (b : Nat) : Bool := decide (0x80 ≤ b) && decide (b ≤ 0xBF)
+
+def runeWidth (p : List (BitVec 8)) : Nat :=
+  match p with
+  | [] => 1
+  | c0 :: rest =>
+    let b0 := c0.toNat
+    let size := if b0 < 0xC2 then 1 else if b0 < 0xE0 then 2 else if b0 < 0xF0 then 3 else if b0 < 0xF5 then 4 else 1
+    if size == 1 then 1
+    else if rest.length + 1 < size then 1
+    else if !utf8Second b0 (rest.getD 0 0).toNat then 1
+    else if size == 2 then 2
+    else if !utf8Cont (rest.getD 1 0).toNat then 1
+    else if size == 3 then 3
+    else if !utf8Cont (rest.getD 2 0).toNat then 1
+    else 4
+
+/-- the offsets of the rune starts of `p`, counted from `off`; `fuel` = `p.length` suffices -/
+def runeStartsFrom : Nat → Nat → List (BitVec 8) → List (BitVec 64)
+  | 0, _, _ => []
+  | _ + 1, _, [] => []
+  | fuel + 1, off, p@(_ :: _) =>
+    BitVec.ofNat 64 off :: runeStartsFrom fuel (off + runeWidth p) (p.drop (runeWidth p))
+
+/-- the values of `i` in `for i := range s` for the string with bytes `s` -/
+def runeStarts (s : List (BitVec 8)) : List (BitVec 64) := runeStartsFrom s.length 0 s
+
 end Iota.Go
